@@ -47,6 +47,22 @@ CLAIMED["C16"] = (
     "Coq kernel (vm_compute for the registry comparison); the dump printed by harness/C16.cpp and its conversion in props/C16.py; host class family harness/C16_family.h; see DESIGN.md 4/C16",
     "DESIGN.md 4 (C16)")
 
+CLAIMED["C10"] = (
+    "Coq proof of the archive codec round trip (byte-exact writer model, reader with fix-up resolution) + byte-for-byte comparison with the real Archiver",
+    "Theorems C10_*: for every header and every well-formed typed write sequence (all primitive kinds, Raw, strings, plain/weak pointers that are null, backward, forward or self references, positions, flat objects of four host classes) read (shape items) (write items) = items, with the same pointer identities (a pointer to an object that is never archived reads null); holds for both settings of the stream check and of the version test. The model's write is compared BYTE FOR BYTE with the bytes the real Archiver produces and the values/pointer identities read back are compared with the model's read (boundary values, NaN patterns, long/binary strings, graphs of 30 objects, 200 calls). Not covered: ScriptVariable::Archive, objects nested in object bodies.",
+    "Coq kernel; extraction; harness/C10.cpp; strings without NUL, values within their width; see DESIGN.md 4/C10",
+    "DESIGN.md 4 (C10)")
+CLAIMED["C11"] = (
+    "Coq proofs that every truncation and every single substitution at a header/version/tag/size/class-name byte is reported, over stream-check and version-test flags regenerated from Archiver.cpp on every run + exhaustive damage sweep against the real reader",
+    "Theorems C11_*: for every archive of the C10 model: every strict prefix gives ReadStreamFail; a substituted byte in the header gives InvalidArchiveHeader, in a version WrongVersion, in any record tag (also inside object bodies) TypeError, in an object size ReadPastEndObject/NotReadEntireDataObject, in a class name InvalidClass/ObjectClassError unless the name still resolves case-insensitively to the same class; the reader consumes the bytes exactly as the writer laid them out. The two decisions the proofs depend on (test the stream after the read; || in the version test) are extracted from Archiver.cpp into coq/C11/Generated.v on every run - reverting either breaks the theorem (and the *_refuted_when_unchecked lemmas show why). Every truncation and 3 (thorough: 8 or 255) values at every such byte of 54+ archives are run against the real reader under ASan.",
+    "Coq kernel; the regex translator in props/C11.py; extraction; harness/C11.cpp; damage to payload bytes (pointer indices, string lengths, class count) is outside the property's damage classes and is not claimed (DESIGN.md 8); multi-byte damage is sampled, proved for single damages",
+    "DESIGN.md 4 (C11)")
+CLAIMED["C14"] = (
+    "Coq proof of refinement of the interruption state machine (deadline poll, three catch arms, depth counter, current-thread slot, timer loop) to a closed-form specification, for every configuration and history + extracted model/spec run against the engine over the whole configuration grid",
+    "Theorems C14_*: for every configuration (loop protection on/off, each diagnostic stream attached or not, execution limit, nesting limit, clock step) and every history of host calls / frames over abstract programs (work, loops, waits, nested calls, faults, aborts): run = spec_run; under protection a non-yielding thread makes the host call fail with command overflow within limit + 2 clock steps and no host call ever blocks; a call chain deeper than the nesting limit fails with stack overflow; no outcome is a crash whatever streams are attached; after every host call the interpreter depth is 0 and no current thread is set (so waiting threads are still scheduled); with protection off no call fails with overflow. The full grid x 16 scenarios (+ random histories) is run on the real engine with the injected clock advancing per reading; instruction counts come from hook H4.",
+    "Coq kernel; extraction; harness/C14.cpp; hooks H1 (clock advancing on every reading) and H4; native stack exhaustion and real time are outside the model; a yielding loop (`while(1) { wait 0 }`) is outside the quantifier; see DESIGN.md 4/C14",
+    "DESIGN.md 4 (C14)")
+
 NOT_YET = "no model, theorem and correspondence check has been built for this property yet (work in progress; see DESIGN.md 9 for the order of work)"
 
 
